@@ -125,7 +125,7 @@ func (s *Sim) ttlAgreement() {
 	byIdx := map[uint64][]obs{}
 	var idxs []uint64
 	for _, ns := range s.nodes {
-		if !ns.view.ok || ns.view.applied != ns.view.commit {
+		if !ns.view.ok || ns.view.applied != ns.view.commit || s.hasGatedHandler(ns) {
 			continue
 		}
 		if _, ok := byIdx[ns.view.applied]; !ok {
